@@ -122,12 +122,13 @@ def run(args):
 
 if __name__ == "__main__":
     argv = sys.argv[1:]
-    n, seed, pids = 30, 1, []
+    n, seed, pids, mech = 30, 1, [], False
     i = 0
     while i < len(argv):
         if argv[i] == "--n": n = int(argv[i + 1]); i += 2
         elif argv[i] == "--seed": seed = int(argv[i + 1]); i += 2
         elif argv[i] == "--pid": pids.append(argv[i + 1]); i += 2
+        elif argv[i] == "--mechanisms": mech = True; i += 1
         else: i += 1
     man = json.load(open("/verif/MANIFEST.json"))
     pids = pids or [c["property_id"] for c in man["checks"]]
@@ -141,6 +142,13 @@ if __name__ == "__main__":
             props = {json.loads(l)["id"]: json.loads(l) for l in open("/verif/properties.jsonl")}
             files = set(props[pid]["anchors"]["files"])
             fs = [f for f in fs if f.module.relpath in files]
+        if mech:
+            import re as _re
+            props = {json.loads(l)["id"]: json.loads(l) for l in open("/verif/properties.jsonl")}
+            names = set(_re.findall(r"(?:\d+ )([A-Za-z_][A-Za-z_0-9\.]+)", json.dumps(props[pid]["anchors"]["mechanism"])))
+            names = {x.split(".")[-1] for x in names}
+            fs2 = [f for f in fs if f.name in names]
+            fs = fs2 or fs
         for _ in range(n):
             f = rng.choice(fs)
             work.append((pid, f.module.relpath, f.qualname, rng.randrange(10 ** 6)))
